@@ -5,8 +5,19 @@ formula and the Cheng-Yang correction term, regenerated from the source on every
 the solver).  The scalar minimisation itself is numerical: it is decided per result by *certificate* — the potential closure the
 library built is recorded (module-level `_solve_hk*` wrapped in this process, no change to the repository) and every reported
 width is put back into it.  Independent oracle: the published slit-pore HK equation in SI units, written here.
+
+The other five potentials (HK cylinder / sphere, Rege-Yang slit / cylinder / sphere) are pinned down by Model/HKPot.lean
+(Props/C17/Potentials.lean: model = published equations), evaluated exactly at ℚ by Drv/HKPot.lean in ONE batched call:
+  (a) correspondence: model vs the recorded closure at pore sizes in the solver's bracket (near the bound, random, next to the
+      layer-count / population / truncation jumps) and at every reported width;
+  (b) certificate on the MODEL: every reported width that solves the library's equation must solve exp(phi_model(L) - CY) = p
+      (residual <= 2e-3 as for the closure, and not worse than on the library's own potential by more than 2e-5: on the unchanged
+      tree the two residuals differ by < 1e-7, so the excess is the part of the residual that does not come from the solver);
+  (c) if (a) fails: failing-input search — pressures computed from the model potential for the widths of largest disagreement are
+      given to the library, the widths it returns must solve the model equation.
 """
 import math
+from fractions import Fraction
 
 from pgv.charlib import optq, parse_qlist, q, qlist, quiet_logging, tv_run
 from pgv.core import import_pygaps
@@ -32,6 +43,83 @@ def hk_slit_published(l_nm, T, ads, mat):
     a_ads, a_mat = km_constants(ads, mat)
     coeff = NA / (R * T) * (mat["surface_density"] * a_mat + ads["surface_density"] * a_ads) / (sigma ** 4 * (l - d))
     return coeff * (sigma ** 4 / (3 * (l - d / 2) ** 3) - sigma ** 10 / (9 * (l - d / 2) ** 9) - sigma ** 4 / (3 * (d / 2) ** 3) + sigma ** 10 / (9 * (d / 2) ** 9))
+
+
+# ---------------------------------------------------------------------------------------------------------------- Model/HKPot.lean
+KIND = {("HK", "cylinder"): "hkcyl", ("HK", "sphere"): "hksph", ("RY", "slit"): "ryslit", ("RY", "cylinder"): "rycyl", ("RY", "sphere"): "rysph"}
+MODEL_CLAUSE = "reported width does not solve the method's potential equation (model potential)"
+CERT_TOL = 2e-3          # tolerance of the certificate (solver accuracy, measured residuals <= 1.5e-4)
+EXCESS_TOL = 2e-5        # solver-independent part: residual on the model potential minus residual on the library's own potential (unchanged tree: <= 1e-9 |phi| < 1e-7)
+CORR_TOL = 1e-9          # model (exact) vs closure (floating point), relative; measured <= 4e-12 (<= 6e-11 Rege-Yang sphere at s = 0.03)
+SPHERE_MIN_S = 0.03      # spheres: (l - d_eff)/l below this is ill-conditioned in floating point (t_term cancellation ~ 1e-16/s^3)
+
+
+def model_params(T, ads, mat):
+    """arguments of the Lean model, computed here (not taken from the library): pi, N_A/(RT), densities, Kirkwood-Mueller constants, diameters"""
+    a_ads, a_mat = km_constants(ads, mat)
+    return [math.pi, NA / (R * T), ads["surface_density"], a_ads, mat["surface_density"], a_mat, ads["molecular_diameter"], mat["molecular_diameter"]]
+
+
+def pot_cost(kind, l):
+    """measured wall seconds of one exact evaluation (rational series with ~25 l terms per layer)"""
+    if kind == "rycyl":
+        return 0.012 + 0.003 * l ** 3.3
+    if kind == "hkcyl":
+        return 0.02 + 0.0017 * l * l
+    return 0.01 + 0.003 * l if kind == "hksph" else 0.004
+
+
+def asin_pops(d_ads, d_mat, l):
+    """pi / asin(d_ads / width) for the layers of a Rege-Yang cylinder of radius l that use it (0 elsewhere; one spare entry):
+    the transcendental input of the Lean model"""
+    d_eff = (d_ads + d_mat) / 2
+    n = int(((2 * l - d_mat) / d_ads - 1) / 2) + 1
+    out = []
+    for layer in range(1, n + 2):
+        w = 2 * (l - d_eff - (layer - 1) * d_ads)
+        out.append(math.pi / math.asin(d_ads / w) if d_ads <= w else 0.0)
+    return out
+
+
+def jump_points(kind, d_ads, d_mat, lo, hi):
+    """pore sizes at which the potential is discontinuous by construction (integer-valued quantities change)"""
+    d_eff = (d_ads + d_mat) / 2
+    out = []
+    if kind == "ryslit":
+        out.append(d_mat + 2 * d_ads)                                            # n_layer = 2
+    if kind in ("rycyl", "rysph"):
+        out += [(d_ads * (2 * m + 1) + d_mat) / 2 for m in range(1, 40)]         # a new layer
+    if kind == "rycyl":
+        out += [d_eff + (layer - 0.5) * d_ads for layer in range(1, 40)]         # d_ads = width: population 1 -> pi/asin(1)
+    if kind in ("rycyl", "hkcyl"):
+        out += [m / 25 for m in range(max(1, int(lo * 25)), int(hi * 25) + 2)]   # int(l * 25)
+    return [x for x in out if lo < x < hi]
+
+
+def conditioned(kind, d_ads, d_mat, bound, l):
+    """False where floating point cannot be compared with the exact model: spheres next to the geometric bound, and pore sizes within
+    1e-10 (relative) of a jump (the branch taken in floating point may differ from the exact one)"""
+    if not (bound < l <= 50):
+        return False
+    if kind in ("hksph", "rysph") and (l - bound) / l < SPHERE_MIN_S:
+        return False
+    return all(abs(l - x) > 1e-10 * l for x in jump_points(kind, d_ads, d_mat, l * (1 - 1e-6), l * (1 + 1e-6)))
+
+
+def pot_line(kind, P, l, op="pot"):
+    pops = asin_pops(P[6], P[7], l) if kind == "rycyl" else []
+    return f"{op} {kind} {qlist(P)} {q(l)} {qlist(pops)}"
+
+
+def pot_value(reply):
+    """reply of Drv/HKPot: `ok m e` (value truncated to 96 bits: m * 2^e) or `ok n/d`"""
+    t = reply.split()
+    if t[0] != "ok":
+        return None
+    if len(t) == 2:
+        n, d = t[1].split("/")
+        return float(Fraction(int(n), int(d)))
+    return float(Fraction(int(t[1])) * Fraction(2) ** int(t[2]))
 
 
 def run(ck):
@@ -63,6 +151,7 @@ def run(ck):
     pm._solve_hk, pm._solve_hk_cy = w_hk, w_cy
     cases, lines, plan = [], [], []
     worst = {}
+    runs, reqs = [], []          # Model/HKPot.lean: recorded analyses of the five modelled potentials, model evaluation requests
 
     def note(k, v):
         worst[k] = max(worst.get(k, 0.0), v)
@@ -120,9 +209,10 @@ def run(ck):
             detail = {"T": T, "adsorbate": ads, "material_name": mname, "material": mat, "pressure": ps, "loading": load}
             # (a) certificate: every width solves exp(phi(L) - correction) = p
             cov = None if not r["cy"] else r["n"] / (max(r["n"]) * 1.01)
-            resid, at_bound = [], []
+            resid, at_bound, corrs = [], [], []
             for j, l in enumerate(L):
                 corr = 0.0 if cov is None else 1 + 1 / cov[j] * math.log(1 - cov[j])
+                corrs.append(corr)
                 val = math.exp(float(r["fun"](l)) - corr)
                 resid.append(abs(val - ps[j]) / ps[j])
                 at_bound.append(l <= r["bound"] * (1 + 1e-4) or l >= 50 * (1 - 1e-4))
@@ -163,6 +253,27 @@ def run(ck):
             if bad:
                 ck.fail_case({**sig, "clause": "reported width does not solve the potential equation", "at_search_bound": bool(all(at_bound[j] for j in bad))},
                              {**detail, "index": bad[0], "width_found": L[bad[0]], "relative_residual": resid[bad[0]], "n_bad": len(bad)})
+            # (a') the five potentials of Model/HKPot.lean: correspondence points and the certificate on the model potential
+            kind = KIND.get((model[:2], geo))
+            if kind is not None:
+                d_a, d_m, bound = ads["molecular_diameter"], mat["molecular_diameter"], float(r["bound"])
+                run_ = dict(sig=sig, detail=detail, kind=kind, P=model_params(T, ads, mat), fun=r["fun"], bound=bound, fn=fn, T=T, geo=geo, ads=ads, mat=mat)
+                runs.append(run_)
+                lo = bound * (1 + (SPHERE_MIN_S * 1.1 if geo == "sphere" else 2e-3))
+                pts = [bound * (1 + logu(rng, 0.04 if geo == "sphere" else 2e-3, 0.5)) for _ in range(2)] + [rng.uniform(lo, 3.0) for _ in range(2)]
+                jumps = jump_points(kind, d_a, d_m, lo, 3.0)
+                for x in rng.sample(jumps, min(3, len(jumps))):
+                    eps = rng.choice([1e-9, 1e-7, 1e-5])
+                    pts += [x * (1 - eps), x * (1 + eps)]
+                for l in pts:
+                    if conditioned(kind, d_a, d_m, bound, l):
+                        reqs.append(dict(run=run_, role="corr", l=float(l), py=float(r["fun"](l))))
+                for j, l in enumerate(L):
+                    if resid[j] <= CERT_TOL:                 # the solver did solve the library's own equation at this point
+                        if conditioned(kind, d_a, d_m, bound, l):
+                            reqs.append(dict(run=run_, role="cert", l=float(l), py=float(r["fun"](l)), j=j, p=ps[j], corr=corrs[j], e_c=resid[j]))
+                        else:
+                            ck.count(("model-skip", i, j), nontrivial=False, bucket="model certificate: skipped (floating point ill-conditioned next to the bound / a jump)")
             # (b) published slit equation: widths are mapped back
             if from_widths:
                 e = max(abs(a - b) for a, b in zip(L, ls))
@@ -310,10 +421,135 @@ def run(ck):
                 n_dis += 1
                 if n_dis <= 3:
                     ck.broken.append({"step": f"correspondence Model/Micro.lean ({what})", "what": {"request": line[:300], "model": rep[:300], "implementation": str(data)[:300]}})
-    ck.cov["correspondence_disagreements"] = n_dis
+
+    # ------------------------------------------------------------------ Model/HKPot.lean: one batched exact evaluation of all requests
+    def drive_pot(rs, op="pot"):
+        out = ck.drive("HKPot", [pot_line(x["run"]["kind"], x["run"]["P"], x["l"], op) for x in rs])
+        return [pot_value(t) for t in out]
+
+    budget = 150.0 if thorough else 30.0                      # estimated seconds of exact arithmetic (Rege-Yang cylinders above ~4 nm are expensive)
+    for x in reqs:
+        x["cost"] = pot_cost(x["run"]["kind"], x["l"])
+    order = sorted(range(len(reqs)), key=lambda k: (reqs[k]["role"] != "corr", reqs[k]["cost"], k))
+    chosen, spent = [], 0.0
+    for k in order:
+        if spent + reqs[k]["cost"] <= budget:
+            spent += reqs[k]["cost"]
+            chosen.append(reqs[k])
+        else:
+            ck.count(("model-cost", k), nontrivial=False, bucket="model certificate: skipped (cost of exact evaluation)")
+    exact_probe = [x for x in chosen if x["run"]["kind"] in ("ryslit", "rysph")][:6]        # the same requests printed in full: checks the truncated output format
+    n_pot_dis, broken_runs, model_failed = 0, [], {}
+    import time
+    t_pot = time.time()
+    try:
+        vals = drive_pot(chosen) if chosen else []
+        full = drive_pot(exact_probe, "potq") if exact_probe else []
+    except Exception as e:
+        vals = full = None
+        ck.broken.append({"step": "driver HKPot", "what": str(e)[:600]})
+    ck.cov["model_potential_driver_wall_s"] = round(time.time() - t_pot, 1)
+    if vals is not None:
+        by_id = {id(x): v for x, v in zip(chosen, vals)}
+        for x, v in zip(exact_probe, full):
+            if v is None or by_id[id(x)] is None or abs(v - by_id[id(x)]) > 1e-15 * abs(v):
+                ck.broken.append({"step": "driver HKPot output", "what": {"request": pot_line(x["run"]["kind"], x["run"]["P"], x["l"])[:300], "exact": v, "truncated": by_id[id(x)]}})
+        for x, vm in zip(chosen, vals):
+            run_ = x["run"]
+            kind = run_["kind"]
+            ck.count(("pot", kind, x["role"], x["l"]), bucket=f"model potential:{kind}:" + ("correspondence point" if x["role"] == "corr" else "reported width"))
+            if vm is None:
+                ck.broken.append({"step": "driver HKPot", "what": "no value for " + pot_line(kind, run_["P"], x["l"])[:300]})
+                continue
+            dis = abs(vm - x["py"])
+            agree = dis <= CORR_TOL * max(abs(x["py"]), abs(vm), 1e-3)
+            if agree:
+                note(f"model vs closure (rel):{kind}", dis / max(abs(x["py"]), 1e-3))
+            else:
+                n_pot_dis += 1
+                if run_ not in broken_runs:
+                    broken_runs.append(run_)
+                if n_pot_dis <= 3:
+                    ck.broken.append({"step": f"correspondence Model/HKPot.lean ({kind})", "what": {"l_pore": x["l"], "model_potential": vm, "library_potential": x["py"], "relative": dis / max(abs(vm), 1e-300),
+                                                                                                   "psd_model": run_["sig"]["model"], "geometry": run_["geo"], "T": run_["T"], "adsorbate": run_["ads"], "material": run_["mat"]}})
+            # (b) certificate on the model potential: the width solves the library's equation; it must solve the method's equation
+            if x["role"] == "cert":
+                e_m = abs(math.exp(vm - x["corr"]) - x["p"]) / x["p"]
+                note(f"model residual:{run_['sig']['model']}:{run_['geo']}", e_m if e_m <= CERT_TOL else 0.0)
+                if not agree and (e_m > CERT_TOL or e_m > x["e_c"] + EXCESS_TOL):
+                    model_failed.setdefault(id(run_), []).append((e_m - x["e_c"], x, vm, e_m))
+        for bad_pts in model_failed.values():                 # one failing input per analysis: the reported width with the largest excess residual
+            _, x, vm, e_m = max(bad_pts, key=lambda t: t[0])
+            run_ = x["run"]
+            ck.fail_case({**run_["sig"], "clause": MODEL_CLAUSE},
+                         {**run_["detail"], "index": x["j"], "width_found": x["l"], "pressure_at": x["p"], "relative_residual_model_potential": e_m, "relative_residual_library_potential": x["e_c"],
+                          "model_potential": vm, "library_potential": x["py"], "cheng_yang_term": x["corr"], "n_bad": len(bad_pts)})
+        # (c) correspondence broken without a failing input yet: look for one.  Pressures are computed from the MODEL potential for the widths
+        # where model and library differ most; a root of the method's equation then exists by construction, and the width the library reports must be one.
+        todo = [r_ for r_ in broken_runs if id(r_) not in model_failed]
+        seen_kinds = []
+        for run_ in todo:
+            if seen_kinds.count(run_["kind"]) >= 2 or len(seen_kinds) >= 5:
+                continue
+            seen_kinds.append(run_["kind"])
+            kind, bound, d_a, d_m = run_["kind"], run_["bound"], run_["ads"]["molecular_diameter"], run_["mat"]["molecular_diameter"]
+            lo = bound * (1 + (SPHERE_MIN_S * 1.1 if run_["geo"] == "sphere" else 5e-3))
+            scan = [dict(run=run_, l=float(l)) for l in np.geomspace(lo, 3.0, 28) if conditioned(kind, d_a, d_m, bound, float(l))]
+            try:
+                sv = drive_pot(scan)
+            except Exception as e:
+                ck.broken.append({"step": "driver HKPot (search)", "what": str(e)[:400]})
+                break
+            cand = [(abs(v - float(run_["fun"](x["l"]))), x["l"], v) for x, v in zip(scan, sv) if v is not None and math.log(1e-12) < v < math.log(0.99)]
+            cand = sorted(sorted(cand, reverse=True)[:8], key=lambda c: c[2])            # largest disagreements, then by pressure
+            cand = [c for k, c in enumerate(cand) if k == 0 or c[2] > cand[k - 1][2] + 1e-9]
+            if len(cand) < 3:
+                continue
+            ps2 = [math.exp(c[2]) for c in cand]
+            load2 = list(np.cumsum([1.0] * len(ps2)))
+            rec.clear()
+            pm._solve_hk, pm._solve_hk_cy = w_hk, w_cy
+            try:
+                run_["fn"](np.array(ps2), np.array(load2), run_["T"], run_["geo"], run_["ads"], run_["mat"], use_cy=False)
+            except Exception:  # noqa  (refusals are reported by the main loop)
+                continue
+            finally:
+                pm._solve_hk, pm._solve_hk_cy = orig_hk, orig_cy
+            if len(rec) != 1:
+                continue
+            r2 = rec[0]
+            back = [dict(run=run_, l=float(l)) for l in r2["L"]]
+            okc = [conditioned(kind, d_a, d_m, bound, x["l"]) and pot_cost(kind, x["l"]) < 2.0 for x in back]
+            try:
+                bv = drive_pot([x for x, o in zip(back, okc) if o])
+            except Exception as e:
+                ck.broken.append({"step": "driver HKPot (search)", "what": str(e)[:400]})
+                break
+            it = iter(bv)
+            for j, (x, o) in enumerate(zip(back, okc)):
+                ck.count(("pot-search", kind, j, x["l"]), bucket=f"model potential:{kind}:failing-input search")
+                if not o:
+                    continue
+                vm = next(it)
+                if vm is None:
+                    continue
+                e_c = abs(math.exp(float(r2["fun"](x["l"]))) - ps2[j]) / ps2[j]
+                e_m = abs(math.exp(vm) - ps2[j]) / ps2[j]
+                if e_c <= CERT_TOL and (e_m > CERT_TOL or e_m > e_c + EXCESS_TOL):
+                    ck.fail_case({**run_["sig"], "model": run_["sig"]["family"], "clause": MODEL_CLAUSE, "search": "pressures computed from the model potential for chosen widths"},
+                                 {"T": run_["T"], "adsorbate": run_["ads"], "material": run_["mat"], "pressure": ps2, "loading": load2, "chosen_widths": [c[1] for c in cand], "index": j,
+                                  "width_found": x["l"], "pressure_at": ps2[j], "relative_residual_model_potential": e_m, "relative_residual_library_potential": e_c,
+                                  "model_potential_at_found": vm, "library_potential_at_found": float(r2["fun"](x["l"]))})
+                    break
+    ck.cov["model_potential_evaluations"] = len(chosen)
+    ck.cov["model_potential_cost"] = {"estimated_s": round(spent, 1), "budget_s": budget}
+    ck.cov["model_potential_disagreements"] = n_pot_dis
+    ck.cov["correspondence_disagreements"] = n_dis + n_pot_dis
     ck.cov["worst"] = {k: float(f"{v:.3g}") for k, v in sorted(worst.items())}
     ck.cov["rule"] = ("adsorbate parameter sets over physical ranges, three built-in adsorbent sets and user dictionaries, 70-300 K, four models x three geometries, 4-30 pressures (log-uniform 1e-7..0.2 or computed "
                       "from the published slit equation for widths between the geometric minimum and 3 nm), increasing loadings; isotherm entry point with any limits")
     ck.assumptions += ["scipy.optimize.minimize_scalar (bounded Brent) is numerical: each result is checked by certificate against the recorded potential closure",
-                       "cylinder / sphere / Rege-Yang potentials are not modelled in Lean (series and piecewise sums): certificate only",
+                       "cylinder / sphere / Rege-Yang potentials: Model/HKPot.lean evaluated exactly at Q against the recorded closures (rel. 1e-9) and used for the certificate; "
+                       "pi / asin(d_ads / width) (Rege-Yang cylinder populations) is computed in this harness and enters the model as input; spheres closer than 3 % to the geometric bound "
+                       "and Rege-Yang cylinders above ~4 nm (cost of exact series) are covered by the closure certificate only",
                        "physical constants are those of the installed scipy (CODATA 2022 electron mass)"]
